@@ -15,7 +15,8 @@ def run(rng, k, allow_quote=True, pipe_safe=True, no_hash=False, no_brace=False)
     return "Zq%dx %s" % (k, " ".join(toks))
 
 
-META_KEYS = ["Title", "Author", "Date", "Copyright", "UUID", "Keywords", "Subject", "Affiliation", "Email", "Web", "Custom Key", "Revision"]
+# ("Language" is a control key whose value also goes into the lang attribute of a complete HTML / XHTML document)
+META_KEYS = ["Title", "Author", "Date", "Copyright", "UUID", "Keywords", "Subject", "Affiliation", "Email", "Web", "Custom Key", "Revision", "Language"]
 
 
 def document(rng, nested_notes=True, meta=None):
